@@ -391,5 +391,8 @@ def check(model, tier):
     mutation.r09_4_no_shared_mutation(ctx)
     typing_rules.r08_5_slice_subscripts(ctx, rule="R01.11")
     optional_rules.r_optional_truthiness(ctx, "R01.12", None, ("iteration/", "_operations/", "_relation.py", "_unary_operation.py"))
+    from ..rules import purity
+
+    purity.r_engine_stateless(ctx, "R01.13", IT_ENGINE, ("execute", "convert_column_expression", "convert_predicate", "append_unary", "append_binary"))
     run.assume("max_rows == 0 / is_join_identity short-circuits rely on truthful bounds (C06)")
     return run
